@@ -347,6 +347,7 @@ def r_plumb(ctx):
     """'Each transmitted fragment fits the configured transmit size': the session's solicited / unsolicited transmit buffer sizes
     (and every other session parameter) come from the like-named configuration field."""
     namesake_plumbing(ctx, ctx.prog, r"^(<)?dnp3::outstation::", 60, "plumbing")
+    arg_namesakes(ctx, ctx.prog)
 
 
 TRANSACTIONAL = [
